@@ -2,6 +2,7 @@ package phase0
 
 import (
 	"context"
+	"encoding/json"
 	"fmt"
 	"sort"
 
@@ -12,6 +13,13 @@ import (
 )
 
 type RegistryIndices []common.ValidatorIndex
+
+func (li RegistryIndices) MarshalJSON() ([]byte, error) {
+	if li == nil {
+		return []byte("[]"), nil // encode as empty list, not null
+	}
+	return json.Marshal([]common.ValidatorIndex(li))
+}
 
 func (p *RegistryIndices) Deserialize(spec *common.Spec, dr *codec.DecodingReader) error {
 	return dr.List(func() codec.Deserializable {
@@ -42,6 +50,13 @@ func (p RegistryIndices) HashTreeRoot(spec *common.Spec, hFn tree.HashFn) common
 }
 
 type ValidatorRegistry []*Validator
+
+func (li ValidatorRegistry) MarshalJSON() ([]byte, error) {
+	if li == nil {
+		return []byte("[]"), nil // encode as empty list, not null
+	}
+	return json.Marshal([]*Validator(li))
+}
 
 func (a *ValidatorRegistry) Deserialize(spec *common.Spec, dr *codec.DecodingReader) error {
 	return dr.List(func() codec.Deserializable {
